@@ -166,6 +166,13 @@ theorem moved_pointers_leave_the_plan (fc : Facts) (x : Flatten.Ext) (o : Flatte
     rw [h']
     exact Proofs.StalePlans.plansAfterMove_clean v key callers plans
 
+/-- `namePointers` returns the result of a pass in which every planned key was still there when its turn came: a pass
+    that had to skip a moved pointer is always followed by another one -/
+theorem namePointers_ends_with_complete_pass (fc : Facts) (x : Flatten.Ext) (o : Flatten.Opts) (s s' : Flatten.St)
+    (h : Flatten.namePointers fc x o s = .ok s') :
+    ∃ s0, Flatten.namePointersPass fc x o s0 = .ok (s', false) :=
+  Proofs.StalePlans.namePointersLoop_last_pass fc x o _ s s' h
+
 /-- the conclusion says something: a plan that still holds a key under the moved schema does not meet it, a plan with
     the visited key and keys elsewhere does -/
 example (pl : Flatten.PtrPlan) :
